@@ -14,7 +14,7 @@
    issued in program order, read back with the semantics of the call that issued them (setValue: last one wins,
    updValue(ADD) on a zero matrix: sum).  Executable definitions only.
    (NeighUnique::_unique is modelled in C04/Neigh.v on the samples of C06; the collocated neighbourhood update in C04/Proofs_krige.v.) *)
-From Coq Require Import List Arith ZArith QArith Bool.
+From Coq Require Import List Arith ZArith QArith Qabs Bool.
 From Gst Require Import lib.QAux lib.LinAlgQ.
 Import ListNotations.
 Local Open Scope Q_scope.
@@ -53,6 +53,28 @@ Definition ranks_active (db : cdb) (nbgh : list nat) (item : nat) (useSel useVer
   filter (keep_rank db item' useSel useV) init.
 Definition multiple_ranks (db : cdb) (ivars : list nat) (nbgh : list nat) (useSel useVerr : bool) : list (list nat) :=
   map (fun v => ranks_active db nbgh v useSel useVerr) ivars.
+
+(* the same with the optional test "all coordinates defined" (useCoord); [cdef] = one flag per sample ([] = all defined) *)
+Definition coord_ok (cdef : list bool) (iech : nat) : bool := match cdef with [] => true | _ => nth iech cdef false end.
+Definition keep_rank_c (cdef : list bool) (db : cdb) (item : option nat) (useSel useV useCoord : bool) (iech : nat) : bool :=
+  keep_rank db item useSel useV iech && (negb useCoord || coord_ok cdef iech).
+Definition item_of (db : cdb) (item : nat) : option nat := if has_z db then Some item else None.
+Definition usev_of (db : cdb) (item : nat) (useVerr : bool) : bool :=
+  useVerr && match item_of db item with Some v => Nat.ltb v (length (d_verr db)) | None => false end.
+Definition init_ranks (db : cdb) (nbgh : list nat) : list nat := match nbgh with [] => seq 0 (d_n db) | _ => nbgh end.
+Definition ranks_active_c (cdef : list bool) (db : cdb) (nbgh : list nat) (item : nat) (useSel useVerr useCoord : bool) : list nat :=
+  filter (keep_rank_c cdef db (item_of db item) useSel (usev_of db item useVerr) useCoord) (init_ranks db nbgh).
+Definition multiple_ranks_c (cdef : list bool) (db : cdb) (ivars nbgh : list nat) (useSel useVerr useCoord : bool) : list (list nat) :=
+  map (fun v => ranks_active_c cdef db nbgh v useSel useVerr useCoord) ivars.
+(* hoisted form: the tests that do not depend on the variable (selection, coordinates) are made once, the per-variable tests on
+   the EXPLICIT list of remaining candidates *)
+Definition multiple_ranks_hoisted (cdef : list bool) (db : cdb) (ivars nbgh : list nat) (useSel useVerr useCoord : bool) : list (list nat) :=
+  let cands := filter (keep_rank_c cdef db None useSel false useCoord) (init_ranks db nbgh) in
+  map (fun v => filter (keep_rank_c cdef db (item_of db v) false (usev_of db v useVerr) false) cands) ivars.
+(* the tempting variant that hands the candidates back to getRanksActive, for which an EMPTY list means "all samples" *)
+Definition multiple_ranks_hoisted_naive (cdef : list bool) (db : cdb) (ivars nbgh : list nat) (useSel useVerr useCoord : bool) : list (list nat) :=
+  let cands := filter (keep_rank_c cdef db None useSel false useCoord) (init_ranks db nbgh) in
+  map (fun v => ranks_active_c cdef db cands v false useVerr false) ivars.
 
 (* ACov::_getActiveVariables *)
 Definition active_vars (nvar : nat) (ivar0 : Z) : list nat :=
@@ -147,6 +169,24 @@ Definition optim_updates_sym (db1 : cdb) (ivars : list nat) (index1 : list (list
                            optim_column true ks P1 (p1A_get P1 iech2) ivars index1 ivar2 icol) (enum_ structs)))
     ivars index1 0%nat)).
 
+(* ACov::evalCovMatrixSparse (ACov.cpp): the plain double loop with its own counters; a cell enters the triplet list only when
+   |value| >= eps * C_ij(0).  (index lists: getMultipleRanksActive(..., true, flagSameDb)) *)
+Definition cellk (k : bool) (irow icol : nat) (v : Q) : list upd :=
+  if k then [{| u_r := irow; u_c := icol; u_v := v |}] else [].
+Definition sparse_keep (eps : Q) (c0 : nat -> nat -> Q) (ivar jvar : nat) (v : Q) : bool := qleb (eps * c0 ivar jvar) (Qabs v).
+Definition sparse_updates (eps : Q) (c0 : nat -> nat -> Q) (db1 db2 : cdb) (ivars jvars : list nat) (index1 index2 : list (list nat)) : list upd :=
+  concat (concat (fst (loop_var (fun ivar1 irow iech1 =>
+    fst (loop_var (fun jvar2 icol iech2 =>
+           let v := cov_plain (coords_at db1 iech1) (coords_at db2 iech2) ivar1 jvar2 in
+           cellk (sparse_keep eps c0 ivar1 jvar2 v) irow icol v)
+         jvars index2 0%nat))
+    ivars index1 0%nat))).
+
+(* the covariance seen by KrigingSystem through the pre-projected points (ACov::load + CovAniso::evalCor on projected points) *)
+Definition cov_projected (p1 p2 : point) (ivar jvar : nat) : Q :=
+  sumL (map (fun ks => sill_at (snd ks) ivar jvar *
+                       cor (fst ks) (dist2 ndim (proj ndim (c_tinv (snd ks)) p2) (proj ndim (c_tinv (snd ks)) p1))) (enum_ structs)).
+
 End Cov.
 
 (* the flattened (variable, sample) list that the row / column counters run over *)
@@ -178,3 +218,11 @@ Definition migrate_ball (l : list msample) : option nat :=
   | None => None
   | Some a => if mc_in a then Some (mc_idx a) else migrate_exhaustive l
   end.
+
+(* ------------------------------------------------------------------ block discretisation, fixed or per cell
+     DbGrid::getDiscretizedBlock (/repo/src/Db/DbGrid.cpp): offset of point (j_1..j_ndim) along axis idim =
+     taille * ((j + 1/2) / nd - 1/2), taille = mesh dx (fixed) or the BLEX extension of the cell (flagPerCell) *)
+Definition disc_off (taille : Q) (nd j : nat) : Q :=
+  taille * ((inject_Z (Z.of_nat j) + (1 # 2)) / inject_Z (Z.of_nat nd) - (1 # 2)).
+Definition disc_point (tailles : list Q) (ndiscs js : list nat) : list Q :=
+  map (fun tnj => disc_off (fst (fst tnj)) (snd (fst tnj)) (snd tnj)) (combine (combine tailles ndiscs) js).
